@@ -136,6 +136,11 @@ class Machine(RuleBasedStateMachine):
             nodes.setdefault(tops[0] + "-old/sibling.py", ("text", b"x = 1\n"))
             nodes.setdefault(tops[0] + "2.py", ("text", b"x = 1\n"))
         spec["nodes"] = nodes
+        if spec["git"]:
+            # (a submodule whose only files were just filtered out is no directory any more)
+            keep = [sm for sm in spec["git"]["submodules"] if any(p.startswith(sm + "/") and v[0] in ("text", "binary") for p, v in nodes.items())]
+            spec = dict(spec, git=dict(spec["git"], submodules=keep))
+            self.submods = keep
         self.has_git = bool(spec["git"])
         self.glob = glob
         GT.materialise(self.root, spec)
@@ -442,7 +447,7 @@ def run(ctx):
     try:
         run_state_machine_as_test(
             machine,
-            settings=settings(max_examples=45 if q else 1000, stateful_step_count=8, deadline=None, database=None, report_multiple_bugs=False,
+            settings=settings(max_examples=80 if q else 1000, stateful_step_count=8, deadline=None, database=None, report_multiple_bugs=False,
                               phases=phases, suppress_health_check=list(HealthCheck), print_blob=False),
         )
     except Violation as v:
